@@ -333,7 +333,9 @@ func c12Doc(t *rapid.T) map[string]any {
 		one = append(one, map[string]any{"k": float64(i + 1)})
 	}
 	return map[string]any{"t": rows, "u": us, "meta": map[string]any{"ip": "10.0.0.1"}, "grid": grid, "one": one,
-		"col": map[string]any{"a": map[string]any{"b": 2.0}, "a_b": 1.0, "c": map[string]any{"d_e": 3.0, "f": "x"}, "c_d": map[string]any{"e": 4.0}, "z": "last"}}
+		"col": map[string]any{"a": map[string]any{"b": 2.0}, "a_b": 1.0, "c": map[string]any{"d_e": 3.0, "f": "x"}, "c_d": map[string]any{"e": 4.0}, "z": "last"},
+		// (two nested objects whose flattened keys coincide, and no flat key with an underscore beside them)
+		"col2": map[string]any{"a": map[string]any{"b_c": "from a.b_c"}, "a_b": map[string]any{"c": "from a_b.c"}, "z": 1.0}}
 }
 
 func genC12(t *rapid.T) *Bundle {
@@ -441,9 +443,10 @@ func genC12(t *rapid.T) *Bundle {
 	case "mix_collide":
 		// mix=> flattens nested objects into outer_inner keys: an object that already has such a key, or two nested
 		// objects whose flattened keys coincide, must come out the same way every time
-		q = fmt.Sprintf("SELECT %s FROM %s", g.pick("mix_collide_sel", "`mix=>"+root+"col` AS m", "`mix=>"+root+"col.c` AS m, `mix=>"+root+"col` AS m2", "(SELECT * FROM `mix=>"+root+"col`) AS m"), g.pick("mix_collide_from", "dual", T))
+		obj := g.pick("mix_collide_obj", "col", "col2")
+		q = fmt.Sprintf("SELECT %s FROM %s", g.pick("mix_collide_sel", "`mix=>"+root+obj+"` AS m", "`mix=>"+root+"col.c` AS m, `mix=>"+root+obj+"` AS m2", "(SELECT * FROM `mix=>"+root+obj+"`) AS m"), g.pick("mix_collide_from", "dual", T))
 		if rapid.IntRange(0, 3).Draw(t, "mix_from") == 0 {
-			q = fmt.Sprintf("SELECT * FROM `mix=>%scol`", root)
+			q = fmt.Sprintf("SELECT * FROM `mix=>%s%s`", root, obj)
 		}
 	case "scope_routes":
 		// the enclosing document (the scope CTE thunks live in, carrying the marker of the level above) reached by other
